@@ -62,7 +62,7 @@ class AbsPlan:
 class PlanConfig:
     """Per-run swarm knobs (all drawn from the plan tape)."""
 
-    def __init__(self, tape, allow_hang=False, allow_async=True):
+    def __init__(self, tape, allow_hang=False, allow_async=True, focus=None):
         self.async_num = (0, 2, 4, 6)[tape.weighted((1, 3, 3, 2), "p_async")] if allow_async else 0
         self.fault_num = (0, 1, 2, 4)[tape.weighted((2, 3, 3, 2), "p_fault")]
         self.src_fault_num = (0, 2, 5)[tape.weighted((3, 2, 1), "p_src")]
@@ -70,7 +70,16 @@ class PlanConfig:
         self.hang_num = (0, 1, 3)[tape.weighted((2, 2, 1), "p_hang")] if allow_hang else 0
         self.slow_close_num = (0, 3)[tape.draw(2, "p_slowclose")]
         self.allow_async = allow_async
+        self.focus = focus
         self.slowc_num = (0, 2, 4)[tape.weighted((2, 2, 1), "p_slowc")] if allow_async else 0
+        if focus == "seriality":
+            # every position asynchronous, failures only as raising awaitables, slow cancellation
+            # common, no source failures: subtrees cannot orphan work (strict seriality applies)
+            self.async_num = 8
+            self.fault_num = 3
+            self.src_fault_num = 0
+            self.iter_num = 0
+            self.slowc_num = 4
 
 
 class Planner:
@@ -117,6 +126,8 @@ class Planner:
             elif is_leaf_type(inner):
                 kinds.append("bad_leaf")
             fp.fault = kinds[tp.draw(len(kinds), "f_fk")]
+            if cfg.focus == "seriality":
+                fp.fault = "raise"
             fp.exc = tp.draw(len(EXC_KINDS), "f_exc")
             fp.msg = self._msg(fp.exc if fp.fault in ("raise", "ret_exc") else None)
             self._count("field:" + fp.fault)
@@ -136,7 +147,7 @@ class Planner:
         if tp.draw(8, "i_async") < cfg.async_num // 2:
             ip.delivery = "future"
             self.n_async += 1
-        if tp.draw(32, "i_fault") < cfg.fault_num:
+        if tp.draw(32, "i_fault") < cfg.fault_num and cfg.focus != "seriality":
             inner = t.of_type if is_non_null_type(t) else t
             kinds = ["null", "ret_exc", "raise"]
             if is_leaf_type(inner):
@@ -185,7 +196,8 @@ class Planner:
         if type_mode == "resolve_type" and tp.draw(8, "a_async") < cfg.async_num:
             ap.delivery = "future"
             self.n_async += 1
-        if type_mode != "is_type_of" and tp.draw(32, "a_fault") < cfg.fault_num:
+        if (type_mode != "is_type_of" and tp.draw(32, "a_fault") < cfg.fault_num
+                and cfg.focus != "seriality"):
             kinds = ["none", "unknown", "nonobject", "notpossible"]
             if type_mode == "resolve_type":
                 kinds += ["raise", "nonstring"]
